@@ -40,6 +40,8 @@ impl OutMessage {
             _ => return Err(anyhow::anyhow!("Message is neither text nor bytes")),
         };
 
+        crate::common::check_json_nesting_depth(&text)?;
+
         Ok(::simd_json::serde::from_slice(&mut text)?)
     }
 }
